@@ -141,7 +141,9 @@ def main(tier, seed):
         'a derivative is refuted only by a step family whose two steps agree with each other, lie above the rounding '
         'noise of the values and see a smooth function (midpoint defect shrinks >= 64x), when all such families agree; '
         'it must differ by more than 1e-3 rel + 1e-6 abs + 1e-9 x largest output of the call from every estimate and '
-        'match no one-sided quotient; everything in between is fd_unstable / fd_marginal / one_sided_at_kink, not judged',
+        'match no one-sided quotient; a FIRST derivative that is far from the stable central estimates and equals a one-sided quotient '
+        'is a derivative returned at a kink (it does not exist there: Errmsg required) and is a violation; everything else in '
+        'between is fd_unstable / fd_marginal (second derivatives: also one_sided_at_kink), not judged',
         'partials for positions marked constant in dig are not requested, hence never judged; derivs/hes are '
         'pre-filled with a finite sentinel, an active slot still holding it with Errmsg==NULL is "an arbitrary number"',
         'Hessian layout is the row-wise upper triangle used by test/gsl-test.cc (identical to ASL\'s column-wise '
